@@ -1986,7 +1986,8 @@ theorem rsim_spec (m : Mdl) (H k : Nat) : ∀ (fuel : Nat) (t : RTree) (p : Path
               show upd (rdown m t p st).1.nN _ _ q = _
               simp only [upd, hqc, if_false]; rw [d1]; simp [upd, hne]
             · have h1 := hdown pend hI
-              have h2 : RCnt (upd pend p (pend p + 1)) (rleaf (rdown m t p st).1 (p ++ [(st.a, st.o)])) := by
+              have h2 : RCnt (upd pend p (pend p + 1)) (rleaf (rdown m t p st).1 (p ++ [(st.a, st.o)]) m.rLeafV
+                  (if depth + 1 < H then 0 else (rdown m t p st).1.km (p ++ [(st.a, st.o)]))) := by
                 refine ⟨fun q => ?_, fun q a hqa => h1.out q a hqa⟩
                 have hc := h1.cnt q
                 show upd (rdown m t p st).1.nN (p ++ [(st.a, st.o)]) ((rdown m t p st).1.nN (p ++ [(st.a, st.o)]) + 1) q
@@ -2154,7 +2155,8 @@ theorem rsim_mean (m : Mdl) (H k : Nat) : ∀ (fuel : Nat) (t : RTree) (p : Path
               exact (ih _ _ _ _ _ _ _ _ hr (hd.of_eq a1 a2 a3)).rup m k p st.a depth imm
           · simp at hr
             obtain ⟨rfl, _, rfl⟩ := hr
-            exact (hd.of_eq (t1 := rleaf (rdown m t p st).1 (p ++ [(st.a, st.o)])) rfl rfl rfl).rup m k p st.a depth _
+            exact (hd.of_eq (t1 := rleaf (rdown m t p st).1 (p ++ [(st.a, st.o)]) m.rLeafV
+              (if depth + 1 < H then 0 else (rdown m t p st).1.km (p ++ [(st.a, st.o)]))) rfl rfl rfl).rup m k p st.a depth _
       · simp at h
 
 theorem rrunSims_mean (m : Mdl) (H k : Nat) : ∀ (n : Nat) (t : RTree) (log : List Step) (t' : RTree) (rest : List Step),
